@@ -91,6 +91,7 @@ func shortSSIDSeed(k keyChoice, ssid func(seed string) []byte) (string, bool) {
 
 type c01Case struct {
 	IDStyle     string // "", "blank", "shared": free-form id strings of the parties
+	Poll        bool   `json:",omitempty"` // the application polls WaitingFor() on every party after every step
 	OtherGlobal bool   // the process-global curve is set to edwards25519 although the parameters carry secp256k1
 	ShortSSID   bool   // dealer keys only: search for a key whose session id has a leading zero byte
 	Key         keyChoice
@@ -169,6 +170,7 @@ func genC01(t *rapid.T) c01Case {
 	c.ShortSSID = c.Key.Src == "dealer" && rapid.IntRange(0, 3).Draw(t, "shortssid") == 0
 	c.OtherGlobal = rapid.IntRange(0, 2).Draw(t, "otherGlobal") == 0
 	c.IDStyle = rapid.SampledFrom([]string{"", "", "", "blank", "shared"}).Draw(t, "idStyle")
+	c.Poll = rapid.Bool().Draw(t, "poll")
 	return c
 }
 
@@ -316,6 +318,10 @@ func runC01(c c01Case) (out ev.Outcome) {
 	}
 	net, _, _ := sim.NewSigning(cfg)
 	c.Sched.apply(net)
+	if c.Poll {
+		pollWaitingFor(net)
+		defer func() { out.Label += " polled" }()
+	}
 	net.Run(c.Sched.Make(), 50000)
 	fblC := "absent"
 	if fbl >= 0 {
